@@ -110,6 +110,7 @@ static bool run_plan_fresh(const RunPlan& p, Json& result, int timeout_s = 300)
 	fflush(stdout);
 	pid_t pid = fork();
 	if (pid == 0) {
+		sim_shared_create(); // private simulation state for this process tree
 		alarm(timeout_s);
 		double t0 = now_wall();
 		RunOutcome o = execute_plan(p, g_shm + "/fresh");
@@ -236,6 +237,7 @@ static int do_check(const std::string& prop, int tier, uint64_t base_seed, int j
 		fflush(stdout);
 		pid_t pid = fork();
 		if (pid == 0) {
+			sim_shared_create();
 			std::string outp = g_shm + strf("/w%d.jsonl", w);
 			FILE* f = fopen(outp.c_str(), "w");
 			std::string root = g_shm + strf("/w%d", w);
@@ -323,7 +325,8 @@ static int do_check(const std::string& prop, int tier, uint64_t base_seed, int j
 			}
 			continue;
 		}
-		if (!reported_classes.insert(cls).second && violations >= 3) { ++violations; continue; }
+		// one replay per violation class is enough: further instances are only counted
+		if (!reported_classes.insert(cls).second) { ++violations; continue; }
 		// gate: reproduce twice in fresh processes with the same class
 		RunPlan p = RunPlan::from_json(v.at("plan"));
 		Json r1, r2;
@@ -464,6 +467,7 @@ static int do_selfcheck(int n, int jobs, uint64_t base)
 	for (int w = 0; w < jobs; ++w) {
 		pid_t pid = fork();
 		if (pid == 0) {
+			sim_shared_create();
 			int bad = 0;
 			std::string root = g_shm + strf("/s%d", w);
 			for (int i = w; i < n; i += jobs) {
